@@ -7,6 +7,10 @@ namespace EncRows
 
 variable {α β σ ρ : Type}
 
+theorem flatMap_congr' {γ : Type} {l : List ρ} {f g : ρ → List γ} (h : ∀ x ∈ l, f x = g x) :
+    l.flatMap f = l.flatMap g := by
+  rw [List.flatMap_def, List.flatMap_def, List.map_congr_left h]
+
 /-! ## chunks -/
 
 theorem chunks_flatMap_flatMap {k : Nat} (hk : 0 < k) (r : ρ → List β) (l : List ρ) :
@@ -433,6 +437,191 @@ theorem encBlocks_eq_mul {bw bh w k : Nat} (hbh : 0 < bh) (hk : 0 < k)
       (chunks (k * bh) img).flatMap (fun G => (chunks bh G).flatMap
         (fun g => encodeGroup bw bh w encBlock (padRows bh g))) := by
   rw [encBlocks_eq hbh, ← List.flatMap_assoc, chunks_flatMap hbh hk]
+
+/-- reading a run of every row out of the flat buffer (`rows[o + i * width ..][..n]`) = reading
+it out of the rows -/
+theorem flat_runs {γ : Type} (φ : List α → List γ) {w o n : Nat} (hon : o + n ≤ w) :
+    ∀ buf : List (List α), (∀ r ∈ buf, r.length = w) →
+      (List.range buf.length).flatMap (fun i => φ ((buf.flatten.drop (i * w + o)).take n)) =
+        buf.flatMap (fun row => φ ((row.drop o).take n)) := by
+  intro buf
+  induction buf with
+  | nil => intro _; rfl
+  | cons r t ih =>
+    intro hu
+    have hr : r.length = w := hu r (by simp)
+    have ht : ∀ x ∈ t, x.length = w := fun x hx => hu x (List.mem_cons_of_mem _ hx)
+    rw [List.length_cons, List.range_succ_eq_map, List.flatMap_cons, List.flatMap_cons,
+      List.flatMap_map, ← ih ht]
+    congr 1
+    · simp only [Nat.zero_mul, Nat.zero_add, List.flatten_cons]
+      rw [List.drop_append_of_le_length (by omega), List.take_append_of_le_length
+        (by rw [List.length_drop]; omega)]
+    · apply flatMap_congr'
+      intro i _
+      simp only [List.flatten_cons]
+      have e : (i + 1) * w + o = r.length + (i * w + o) := by rw [Nat.succ_mul, hr]; omega
+      have h1 : r.drop (r.length + (i * w + o)) = [] := List.drop_eq_nil_of_le (by omega)
+      rw [e, List.drop_append, h1, Nat.add_sub_cancel_left, List.nil_append]
+
+theorem padLast_length {n : Nat} {l : List α} (hne : l ≠ []) (hl : l.length ≤ n) :
+    (padLast n l).length = n := by
+  unfold padLast
+  cases hg : l.getLast? with
+  | none => exact absurd (List.getLast?_eq_none_iff.mp hg) hne
+  | some x => simp; omega
+
+/-- **what a block encoder sees**: if `encode_block` reads its slice the way the BCn encoders do
+(`blockAt`: the `bw × bh` pixels at `data[i * pitch + j]`), the output of a row group is the per-block
+function over the blocks of the group, left to right; the blocks at the right edge are padded by
+repeating the last pixel of each row. -/
+theorem encodeGroup_blockAt {bw bh w : Nat} (hbw : 0 < bw) (g : List α → List β)
+    (buf : List (List α)) (hlen : buf.length = bh) (hu : ∀ r ∈ buf, r.length = w) :
+    encodeGroup bw bh w (fun data pitch => g (blockAt bw bh data pitch)) buf =
+      (groupBlocks bw w buf).flatMap g := by
+  unfold encodeGroup groupBlocks
+  have hdm := Nat.div_add_mod w bw
+  have hmul : bw * (w / bw) = w / bw * bw := Nat.mul_comm _ _
+  have hdc : divCeil w bw = w / bw + (if w % bw > 0 then 1 else 0) := by
+    rw [← rowGroups_eq]; rfl
+  -- full blocks
+  have hfull : ∀ bi, bi < w / bw →
+      blockAt bw bh (buf.flatten.drop (bi * bw)) w =
+        buf.flatMap fun row => padLast bw ((row.drop (bi * bw)).take bw) := by
+    intro bi hbi
+    have hle : bi * bw + bw ≤ w := by
+      have : (bi + 1) * bw ≤ w / bw * bw := Nat.mul_le_mul_right bw hbi
+      rw [Nat.succ_mul] at this
+      omega
+    unfold blockAt
+    have := flat_runs (fun l => l) hle buf hu
+    rw [hlen] at this
+    calc (List.range bh).flatMap (fun i => ((buf.flatten.drop (bi * bw)).drop (i * w)).take bw)
+        = (List.range bh).flatMap (fun i => (buf.flatten.drop (i * w + bi * bw)).take bw) := by
+          apply flatMap_congr'; intro i _; rw [List.drop_drop, Nat.add_comm]
+      _ = buf.flatMap (fun row => (row.drop (bi * bw)).take bw) := this
+      _ = buf.flatMap (fun row => padLast bw ((row.drop (bi * bw)).take bw)) := by
+          apply flatMap_congr'
+          intro row hrow
+          rw [padLast_of_length_ge]
+          rw [List.length_take, List.length_drop, hu row hrow]; omega
+  have hfullmap : (List.range (w / bw)).flatMap
+        (fun bi => g (blockAt bw bh (buf.flatten.drop (bi * bw)) w)) =
+      ((List.range (w / bw)).map fun bi =>
+        buf.flatMap fun row => padLast bw ((row.drop (bi * bw)).take bw)).flatMap g := by
+    rw [List.flatMap_map]
+    apply flatMap_congr'
+    intro bi hbi
+    rw [hfull bi (List.mem_range.mp hbi)]
+  simp only
+  rw [hfullmap, hdc]
+  by_cases hr : w % bw > 0
+  · have hne : w % bw ≠ 0 := by omega
+    rw [if_pos hne, if_pos hr, List.range_succ, List.map_append, List.flatMap_append]
+    congr 1
+    simp only [List.map_cons, List.map_nil, List.flatMap_cons, List.flatMap_nil, List.append_nil]
+    congr 1
+    -- the partial block: `block_data`, read back with pitch `bw`
+    have hwid : w - w / bw * bw = w % bw := by omega
+    have hlt : w % bw < bw := Nat.mod_lt _ hbw
+    have hdata : (List.range bh).flatMap (fun i =>
+          padLast bw ((buf.flatten.drop (w / bw * bw + i * w)).take (w - w / bw * bw))) =
+        (buf.map fun row => padLast bw ((row.drop (w / bw * bw)).take bw)).flatten := by
+      have := flat_runs (padLast bw) (o := w / bw * bw) (n := w - w / bw * bw) (by omega) buf hu
+      rw [hlen] at this
+      rw [← List.flatMap_def]
+      calc _ = (List.range bh).flatMap (fun i =>
+              padLast bw ((buf.flatten.drop (i * w + w / bw * bw)).take (w - w / bw * bw))) := by
+            apply flatMap_congr'; intro i _; rw [Nat.add_comm]
+        _ = _ := this
+        _ = _ := by
+            apply flatMap_congr'
+            intro row hrow
+            have hl : (row.drop (w / bw * bw)).length = w % bw := by
+              rw [List.length_drop, hu row hrow]; exact hwid
+            rw [List.take_of_length_le (by omega), List.take_of_length_le (by omega)]
+    rw [hdata]
+    unfold blockAt
+    have hu' : ∀ r ∈ buf.map (fun row => padLast bw ((row.drop (w / bw * bw)).take bw)),
+        r.length = bw := by
+      intro r hr'
+      obtain ⟨row, hrow, rfl⟩ := List.mem_map.mp hr'
+      have hl : (row.drop (w / bw * bw)).length = w % bw := by
+        rw [List.length_drop, hu row hrow]; exact hwid
+      have htk : (row.drop (w / bw * bw)).take bw = row.drop (w / bw * bw) :=
+        List.take_of_length_le (by omega)
+      rw [htk]
+      apply padLast_length
+      · intro h; rw [h] at hl; simp at hl; omega
+      · omega
+    have := flat_runs (fun l => l) (o := 0) (n := bw) (w := bw) (by omega) _ hu'
+    rw [List.length_map, hlen] at this
+    simp only [Nat.add_zero, List.drop_zero] at this
+    rw [this, List.flatMap_map]
+    apply flatMap_congr'
+    intro row hrow
+    have hl : (row.drop (w / bw * bw)).length = w % bw := by
+      rw [List.length_drop, hu row hrow]; exact hwid
+    have htk : (row.drop (w / bw * bw)).take bw = row.drop (w / bw * bw) :=
+      List.take_of_length_le (by omega)
+    rw [htk]
+    apply List.take_of_length_le
+    have hne' : row.drop (w / bw * bw) ≠ [] := by
+      intro h; rw [h] at hl; simp at hl; omega
+    rw [padLast_length hne' (by omega)]
+    exact Nat.le_refl _
+  · have he : w % bw = 0 := by omega
+    have : ¬ (w % bw ≠ 0) := by omega
+    rw [if_neg this, if_neg hr]
+    simp
+
+/-- every chunk is a non-empty run of at most `k` elements of the list -/
+theorem chunks_mem {k : Nat} (hk : 0 < k) (l : List ρ) :
+    ∀ c ∈ chunks k l, c ≠ [] ∧ c.length ≤ k ∧ ∀ x ∈ c, x ∈ l := by
+  generalize hn : l.length = n
+  induction n using Nat.strongRecOn generalizing l with
+  | _ n ih =>
+    by_cases hne : l = []
+    · subst hne; simp [chunks_nil]
+    · have hpos : 0 < l.length := List.length_pos_iff.mpr hne
+      rw [chunks_cons hk hne]
+      intro c hc
+      rcases List.mem_cons.mp hc with h | h
+      · subst h
+        refine ⟨?_, ?_, fun x hx => List.mem_of_mem_take hx⟩
+        · intro h0
+          have : (l.take k).length = 0 := by rw [h0]; rfl
+          rw [List.length_take] at this; omega
+        · rw [List.length_take]; omega
+      · obtain ⟨h1, h2, h3⟩ := ih (l.drop k).length (by rw [List.length_drop]; omega) _ rfl c h
+        exact ⟨h1, h2, fun x hx => List.mem_of_mem_drop (h3 x hx)⟩
+
+theorem padRows_props {bh : Nat} {g : List (List α)} (hne : g ≠ []) (hl : g.length ≤ bh) :
+    (padRows bh g).length = bh ∧ ∀ r ∈ padRows bh g, r ∈ g := by
+  unfold padRows
+  cases g with
+  | nil => exact absurd rfl hne
+  | cons r t =>
+    simp only [List.head?_cons]
+    constructor
+    · simp only [List.length_append, List.length_replicate]; omega
+    · intro x hx
+      rcases List.mem_append.mp hx with h | h
+      · exact h
+      · rw [List.eq_of_mem_replicate h]; simp
+
+/-- the whole image, when `encode_block` reads its slice as a block: the per-block function over
+the blocks of every (padded) row group, groups top to bottom, blocks left to right -/
+theorem encBlocks_blockAt {bw bh w : Nat} (hbw : 0 < bw) (hbh : 0 < bh) (g : List α → List β)
+    (img : List (List α)) (hu : ∀ r ∈ img, r.length = w) :
+    encBlocks bw bh w (fun data pitch => g (blockAt bw bh data pitch)) img =
+      (chunks bh img).flatMap (fun grp => (groupBlocks bw w (padRows bh grp)).flatMap g) := by
+  rw [encBlocks_eq hbh]
+  apply flatMap_congr'
+  intro grp hgrp
+  obtain ⟨h1, h2, h3⟩ := chunks_mem hbh img grp hgrp
+  obtain ⟨p1, p2⟩ := padRows_props h1 h2
+  exact encodeGroup_blockAt hbw g _ p1 (fun r hr => hu r (h3 r (p2 r hr)))
 
 /-! ## the split model never splits the stateful families -/
 
